@@ -179,7 +179,7 @@ def _d_mul(a, b):
 
 def r_opsem(ctx, only=None):
     from .. import opsem
-    from ..opsem import AObj, AScalar, ACons, Raised, LeafCreated, OpInterp, dicts_equal, show_dict
+    from ..opsem import AObj, AScalar, ACons, Raised, LeafCreated, OpInterp, dicts_equal, show_dict, binary as opsem_binary
     repo = ctx.repo
     S = Rat.sym
 
@@ -229,7 +229,7 @@ def r_opsem(ctx, only=None):
                 want = _expected(cname, op, me, kind, arg, c)
                 it = OpInterp(repo, cls.module)
                 try:
-                    got = it.invoke(me, op, [] if unary else [arg])
+                    got = it.invoke(me, op, []) if unary else opsem_binary(it, me, op, arg)
                     outcome = ("value", got)
                 except Raised as r:
                     outcome = ("raise", r.kind)
@@ -247,7 +247,7 @@ def r_opsem(ctx, only=None):
                            "Function": AObj("Function", {"fz": S("z1")}, frozenset({"rs"}))}[cname]
                     it2 = OpInterp(repo, cls.module)
                     try:
-                        got2 = it2.invoke(alt, op, [] if unary else [arg])
+                        got2 = it2.invoke(alt, op, []) if unary else opsem_binary(it2, alt, op, arg)
                         outcome = ("value", got2)
                     except Raised:
                         pass
